@@ -45,6 +45,8 @@ type Obligation struct {
 type Script struct {
 	Preamble string
 	Lines    []string
+	// float64 is an uninterpreted sort in this script (the function only moves floats)
+	OpaqueFloat bool
 }
 
 // Exec symbolically executes one function under contract and collects
